@@ -17,6 +17,9 @@ func (self *Transformer) stmtCanControlLoop(node ast.AnalyzedStatement) bool {
 		return self.exprCanControlLoop(node.Expression)
 	case ast.ReturnStatementKind:
 		node := node.(ast.AnalyzedReturnStatement)
+		if node.ReturnValue == nil {
+			return false
+		}
 		return self.exprCanControlLoop(node.ReturnValue)
 	case ast.BreakStatementKind, ast.ContinueStatementKind:
 		// These statements are what we are looking for, so return `true`
@@ -150,6 +153,10 @@ func (self *Transformer) exprCanControlLoop(node ast.AnalyzedExpression) bool {
 			if self.exprCanControlLoop(arm.Action) {
 				return true
 			}
+		}
+
+		if node.DefaultArmAction != nil {
+			return self.exprCanControlLoop(*node.DefaultArmAction)
 		}
 
 		return false
